@@ -62,6 +62,11 @@ CHECKS = {
             "Breadth-first search over histories of {SET_FEATURES with/without PROTOCOL_FEATURES, SET_VRING_KICK new/no descriptor, SET_VRING_CALL, SET_VRING_ENABLE 0/1, GET_VRING_BASE, RESET_DEVICE, guest kick on the current descriptor} on two rings of a real daemon (RwLock and Mutex rings, one and two workers), every message acknowledged and a two-round probe listener on each worker as ordering barrier, so 'not dispatched' is observed without sleeping. After every step the dispatch count per ring must equal the reference model's (a pending kick is dispatched iff the ring is started and enabled now; kicks raised while inactive stay in the eventfd and are dispatched by the activating step), GET_VRING_BASE returns the index and drops both descriptors, and each worker's epoll set (read from /proc fdinfo) holds exactly the kick descriptors of active rings. The key includes the implementation's ring flags and epoll registrations; closure is reached at 296 states (depth 9).",
             "Trusted: /proc/self/fdinfo for the epoll set; the two-probe barrier argument (DESIGN 2.1). Steps the protocol forbids in the current state are not in the alphabet for that state. Random histories beyond the closure are not claimed.",
             "DESIGN.md 4/C11"),
+    "C12": ("model_checking", "sched",
+            "stateless depth-first exploration of thread interleavings of the real worker and daemon threads under a controlled scheduler (CHESS style), iterated preemption bound, scheduling points at the libc boundary",
+            "The real vring worker thread and the real daemon thread of a VhostUserDaemon run as OS threads serialised by a controller; the frontend script and the guest kicks are environment actors executed atomically by the explorer. Scheduling points are the library threads' recvmsg / sendmsg / epoll_wait (before and after it returns) / epoll_ctl - intercepted at the libc boundary, so a modified library keeps being cut at whatever calls it makes - plus the entry of the backend's handle_event. For the scenarios disable/enable, stop(GET_VRING_BASE)/restart and reset/enable (RwLock and Mutex rings, 1-2 kicks) all schedules with at most 2 (3 at thorough) preemptions are enumerated after a deterministic set-up prefix; blocking is decided by evaluating each parked thread's wait condition, a worker that only spins is treated as yielding. Oracle in every state: handle_event is not entered after the reply to a disabling/stopping message was written unless a later enabling message was already sent; at the end of every execution the last kick was followed by a dispatch while the ring was active, the worker is alive and the frontend's script completed. Every violating schedule is re-executed and must reproduce its trace before it is reported.",
+            "Trusted: data-race freedom between scheduling points (state is kernel state or lock protected), sequentially consistent scheduling; preemption-bounded, not unbounded, exploration. One recorded finding (dispatch not atomic with the enabled check).",
+            "DESIGN.md 4/C12"),
     "C13": ("model_checking", "xstate",
             "explicit-state BFS over memory-table histories on a real VhostUserDaemon with a reference region map co-executed, byte probes through file and guest memory and translation probes via SET_VRING_ADDR after every step",
             "Breadth-first search over histories of {SET_MEM_TABLE of 1-3 regions in both orders, SET_MEM_TABLE with a failing backend callback, ADD_MEM_REG, REM_MEM_REG, REM_MEM_REG with a wrong size} over an 8-region alphabet (adjacent, overlapping, same start, non-zero mmap offsets, 1/2/3 pages, user ranges low / around 2^47 / ending at 2^64-0x1000, un-mmappable descriptor, misaligned offset) against a real daemon. After every step: notification count, the guest memory held by the backend vs the reference map (range, file identity, offset), a tag written through the file read back through guest memory and vice versa at the first and last byte of each region, and SET_VRING_ADDR probes at every region edge +-1 whose installed queue address must equal gpa_base + (va - user_base) or be rejected. Failed requests end the session, so the harness reconnects to the same daemon - which is also how 'a failed update leaves the table intact' is observed, and gives the differential between states reached with and without reconnect.",
